@@ -376,7 +376,10 @@ func VPH_scan() {
 				}
 				return false
 			}
-			vp_Assert(has("--objects") && has("--stdin") && has("--date-order"), "rev-list --objects --stdin --date-order")
+			// --objects/--stdin are what makes rev-list list trees and blobs and accept the fed roots;
+			// the ordering options are not asserted literally: the stub above lists commits
+			// oldest-first unless the argv warrants git's parents-last order
+			vp_Assert(has("--objects") && has("--stdin"), "rev-list --objects --stdin")
 		}
 	}
 	vp_Assert(sawRevList, "rev-list is the enumerator")
